@@ -387,8 +387,10 @@ int veng_pair(enum vtp tp, struct vep *cl, struct vep *ac, struct vep *sv, const
     case TP_BTLS: snprintf(saddr, sizeof saddr, "btls:127.0.0.1:0"); break;
     default: return -1;
     }
+    if (o && o->server_addr) snprintf(saddr, sizeof saddr, "%s", o->server_addr);
     struct xcm_attr_map *sa = xcm_attr_map_create();
     xcm_attr_map_add_bool(sa, "xcm.blocking", false);
+    if (o && o->server_attrs) xcm_attr_map_add_all(sa, o->server_attrs);
     if (vtp_is_bytestream(tp)) xcm_attr_map_add_str(sa, "xcm.service", vrnd_p(&(vrng){ cl->key }, 50) ? "bytestream" : "any");
     {
         struct vs_scope sc = { .active = true, .nonblocking = true, .api = "xcm_server_a", .ep = sv->id, .plan = &sv->plan };
@@ -403,11 +405,14 @@ int veng_pair(enum vtp tp, struct vep *cl, struct vep *ac, struct vep *sv, const
     if (!la) { snprintf(why, why_cap, "no local addr"); return -1; }
     snprintf(caddr, sizeof caddr, "%s", la);
     if (tp == TP_UTLS_TLS) snprintf(caddr, sizeof caddr, "tls:%s", strchr(la, ':') + 1);
+    if (o && o->connect_addr) snprintf(caddr, sizeof caddr, "%s", o->connect_addr);
 
     struct xcm_attr_map *ca = xcm_attr_map_create();
     xcm_attr_map_add_bool(ca, "xcm.blocking", false);
     if (vtp_is_bytestream(tp)) xcm_attr_map_add_str(ca, "xcm.service", vrnd_p(&(vrng){ ac->key }, 50) ? "bytestream" : "any");
     struct xcm_attr_map *aa = xcm_attr_map_create();
+    if (o && o->conn_attrs) xcm_attr_map_add_all(ca, o->conn_attrs);
+    if (o && o->accept_attrs) xcm_attr_map_add_all(aa, o->accept_attrs);
     if (o && o->user_timeout && vtp_is_tcp_based(tp)) {
         if (tp != TP_UTLS_UX) xcm_attr_map_add_int64(ca, "tcp.user_timeout", o->user_timeout);
     }
